@@ -12,6 +12,9 @@
      25        comments (shared body menu) between and around the pieces of "a" + 'x' + "b"
      26-29     the edges of two- and three-line strings: indentation x trailing blanks x content on the first, the inner
                and the last line, each value in three spellings (double-quoted, single-quoted, "head" + 'last line')
+     31, 32    characters that are white space to Unicode only (no-break space, form feed, vertical tab, U+2028, U+3000, ...,
+               byte order mark) and CRs that are not part of a line break, at the end, at the start and in the middle of the
+               lines of two- and three-line strings, alone and mixed with blanks and tabs
      30        several statements of one kind with long, equally long, nearly equal arguments (in one module, and with
                the siblings in a module parsed before with the same interners)
      100, 101  NRand / 2 layouts each, drawn at random from all the menus (TLC -seed)
@@ -43,12 +46,13 @@ Pres == << C("  ") \o Kw \o <<SP>>,                         \* quote in column 1
                C("  /* ") \o <<181>> \o C("s ") \o <<8364, SP, 128512>> \o C(" */ ") \o Kw \o <<SP>>,   \* 14: a comment before the keyword
                C("  ") \o Kw \o C(" /* ") \o <<181, 8364>> \o C(" */ "),                     \* 15: a comment before the string
                C("  m:e Zo") \o <<235, 8364>> \o C("; ") \o Kw \o <<SP>>,                    \* 16: an unquoted non-ASCII argument before
-               C("  ") \o Kw \o <<LF, TAB>> \o C("/* ") \o <<128512, 128512>> \o C(" */ ") >>  \* 17: tab and 4-byte characters, own line
+               C("  ") \o Kw \o <<LF, TAB>> \o C("/* ") \o <<128512, 128512>> \o C(" */ "),   \* 17: tab and 4-byte characters, own line
+               C("  /*") \o <<NBSP, 12288>> \o C("*/ m:e a") \o <<NBSP, 12288>> \o C("b; ") \o Kw \o <<SP>> >>   \* 18: blanks of Unicode (one column each, like any character) before the quote
 \* the statement under test is child 3 of the module, plus one for every statement the prefix puts before it
 RECURSIVE CountCh(_, _, _)
 CountCh(s, c, i) == IF i > Len(s) THEN 0 ELSE (IF s[i] = c THEN 1 ELSE 0) + CountCh(s, c, i + 1)
 PathOf(pre) == <<3 + CountCh(pre, SEMI, 1)>>
-PreFams == (1..Len(Pres)) \ (IF Thorough THEN {} ELSE {2, 7, 11, 12})
+PreFams == (1..Len(Pres)) \ (IF Thorough THEN {} ELSE {2, 7, 11, 12, 18})
 \* contents of one line of a double-quoted string (source form)
 LineMenuCore == << << >>, C("a"), C("b c"), <<BSL, DQ>>, <<BSL, BSL>>, C("//c"), <<233>> >>
 LineMenuMore == << C("x") \o <<BSL, 110>> \o C("y"), <<BSL, 116>> \o C("z"), C("/*c*/"), <<SQ>>, C("+"), C(";{}"), C("a "), C(" a"), <<TAB>> \o C("a"),
@@ -197,6 +201,17 @@ LongVec(kw, n, k, split) ==
       sane |-> TRUE]
 LongOnes(u_) == {LongVec(C("m:e"), n, k, sp) : n \in LongLens, k \in 1..5, sp \in BOOLEAN}
 
+\* families 31, 32: RFC 6020 6.1.3 strips "space or tab characters" - nothing else that Unicode calls white space, and no CR
+\* beyond the one of a CR LF line break.  Every such character x (YangString!ExoChars), alone and mixed with blanks and tabs,
+\* before a line break, in and around the indentation of a continuation line, in the middle of a line, before the closing
+\* quote; first, inner and last lines; LF and CR LF.  (A CR next to a blank is left unjudged by JudgedDQ.)
+ExoEols(x) == IF Thorough \/ x \in {CR, NBSP, FF} THEN {<<LF>>, <<CR, LF>>} ELSE {<<LF>>}
+ExoPres == IF Thorough THEN {1, 5, 18} ELSE {1}
+Exotic2(u_) == UNION {UNION {UNION {{Vec(31, Pres[p], <<D(src)>>, << >>, TailMenu[1]) : src \in Exo2(x, QC(Pres[p]), e, Thorough)}
+                                     : e \in ExoEols(x)} : x \in ExoChars} : p \in ExoPres}
+Exotic3(u_) == UNION {UNION {UNION {UNION {(IF Thorough THEN Spellings(32, Pres[p], src) ELSE {Vec(32, Pres[p], <<D(src)>>, << >>, TailMenu[1])})
+                                            : src \in Exo3(x, QC(Pres[p]), e)} : e \in ExoEols(x)} : x \in ExoChars} : p \in ExoPres}
+
 \* family 100: everything at random
 RE(seq) == seq[RandomElement(1..Len(seq))]
 RandDq(q) == LET n == RandomElement(1..4)  e == RE(Eols) IN
@@ -210,8 +225,8 @@ Random(u_) == {RandVec(k) : k \in 1..(NRand \div 2)}
 
 \* (the big sets take a dummy parameter: TLC evaluates every parameterless definition once at start-up, single-threaded)
 Cases == IF fam <= Len(Pres) THEN TwoLines(fam)
-         ELSE IF fam = 20 THEN ThreeLines(0) ELSE IF fam = 21 THEN Plain(0) ELSE IF fam = 22 THEN Concat2(0) ELSE IF fam = 23 THEN Concat3(0) ELSE IF fam = 24 THEN Escapes(0) ELSE IF fam = 25 THEN CommentJoins(0) ELSE IF fam = 26 THEN Edges2(1) ELSE IF fam = 27 THEN Edges2(5) ELSE IF fam = 28 THEN Edges3(1) ELSE IF fam = 29 THEN Edges3(5) ELSE IF fam = 30 THEN LongOnes(0) ELSE Random(0)
-GInit == fam \in PreFams \cup {20, 21, 22, 23, 24, 25, 26, 27, 28, 30, 100, 101} \cup (IF Thorough THEN {29} ELSE {}) /\ done = FALSE
+         ELSE IF fam = 20 THEN ThreeLines(0) ELSE IF fam = 21 THEN Plain(0) ELSE IF fam = 22 THEN Concat2(0) ELSE IF fam = 23 THEN Concat3(0) ELSE IF fam = 24 THEN Escapes(0) ELSE IF fam = 25 THEN CommentJoins(0) ELSE IF fam = 26 THEN Edges2(1) ELSE IF fam = 27 THEN Edges2(5) ELSE IF fam = 28 THEN Edges3(1) ELSE IF fam = 29 THEN Edges3(5) ELSE IF fam = 30 THEN LongOnes(0) ELSE IF fam = 31 THEN Exotic2(0) ELSE IF fam = 32 THEN Exotic3(0) ELSE Random(0)
+GInit == fam \in PreFams \cup {20, 21, 22, 23, 24, 25, 26, 27, 28, 30, 31, 32, 100, 101} \cup (IF Thorough THEN {29} ELSE {}) /\ done = FALSE
 GNext == /\ ~done /\ done' = TRUE /\ UNCHANGED fam
          /\ ndJsonSerialize("vec_" \o ToString(fam) \o ".ndjson", SetToSeq(Cases))
 =============================================================================
